@@ -168,3 +168,42 @@ def run(prog):
                              "runs (set by another path, or configured as zero) never expires, so what waits for it stays active for ever"
                              % (fld, f.term(pre[0]).get("ln"), post[0][1]))
     return res
+
+
+def rule_nowrap(prog):
+    """R-NOWRAP (C05, C06, C07, C18): counters and timers of the run-time state never wrap around.
+
+    Every timer / age / counter field that the tick path updates uses saturating or checked arithmetic: a timeout that
+    has reached 0 stays 0 (and expires), an age that has reached its maximum stays there. `wrapping_sub(1)` on a timer
+    that is already 0 (rapid-event-delay 0 sets the one-shot timeout to 0) gives 65535: the one-shot stays active for
+    65 more seconds and modifies every key typed meanwhile. Rule: on the functions reachable from the event / tick
+    roots, no value stored into a struct field derives from a `wrapping_*` / `overflowing_*` / `unchecked_*`
+    operation. (The pinned tree has none at all; the arithmetic sites examined are counted as instances.)"""
+    res = RuleResult("R-NOWRAP", "no run-time state field is updated with wrapping arithmetic", floor=30)
+    reach = prog.reachable_from(RT_ROOTS, stop=RT_STOP)
+    for n in sorted(reach):
+        for f in prog.by_norm.get(n, []):
+            if not f.crate.startswith("kanata") or f.derive:
+                continue
+            k = 0
+            for bi, t in f.calls():
+                short = (callee_name(t) or "").split("::")[-1]
+                cn = callee_name(t) or ""
+                if not cn.startswith("core::num::"):
+                    continue
+                arith = short.split("_")[0] in ("saturating", "checked", "wrapping", "overflowing", "unchecked") and \
+                    short.split("_")[-1] in ("add", "sub", "mul", "neg", "shl", "shr")
+                if not arith:
+                    continue
+                bad = short.split("_")[0] in ("wrapping", "overflowing", "unchecked")
+                key = "%s/%s%s" % (f.norm.split("::{closure")[0].split("::")[-1], short, "#%d" % k if k else "")
+                k += 1
+                res.fn(f)
+                res.inst(key, where="%s:%s" % (f.file, t.get("ln")), ok=not bad)
+                res.oblige(not bad)
+                if bad:
+                    res.viol(key, "%s:%s" % (f.file, t.get("ln")),
+                             "%s updates run-time state with `%s`: a timer that is already 0 (or an age at its maximum) wraps round "
+                             "instead of staying there - a one-shot whose timeout was set to 0 stays active for 65535 more ticks, an "
+                             "old key looks recent again" % (f.norm.split("::")[-1], short))
+    return res
